@@ -97,3 +97,79 @@ def ret_alts(fn):
 
 def where(fn, span):
     return "%s in %s" % (span, fn.path)
+
+
+def switch_arms(fn, bb):
+    """for the switch terminating block bb: {value|'otherwise': set(blocks exclusive to that arm)}"""
+    t = fn.term(bb)
+    assert t and t["k"] == "switch"
+    tg = [(v, b) for v, b in t["targets"]] + [("otherwise", t["otherwise"])]
+    reach = {}
+    for v, b in tg:
+        reach[v] = fn.reach_from_inclusive(b, avoid={bb})
+    out = {}
+    for v, b in tg:
+        others = set()
+        for v2, b2 in tg:
+            if v2 != v and b2 != b:
+                others |= reach[v2]
+        out[v] = reach[v] - others
+    return out
+
+
+def find_switch_on(fn, pred):
+    """blocks whose terminator is a switch with pred(normed discr expr) true"""
+    ex = Ex(fn)
+    out = []
+    for bi, b in enumerate(fn.blocks):
+        if b["cleanup"]:
+            continue
+        t = b["term"]
+        if t and t["k"] == "switch":
+            d = norm(ex.operand(t["discr"], (bi, None)))
+            if pred(d):
+                out.append((bi, t, d))
+    return out
+
+
+def aggs_in(fn, blocks, adt_re):
+    r = re.compile(adt_re)
+    out = []
+    for bi in sorted(blocks):
+        for si, s in enumerate(fn.blocks[bi]["stmts"]):
+            if s["k"] == "assign" and s["rv"]["k"] == "agg" and s["rv"].get("ak") == "adt" and r.search(s["rv"]["adt"]):
+                out.append((bi, si, s))
+    return out
+
+
+def calls_in(fn, blocks, *pats):
+    out = []
+    for bi in sorted(blocks):
+        t = fn.term(bi)
+        if t and t["k"] == "call":
+            names = [t.get("callee") or "", t.get("resolved") or ""]
+            if any(re.search(p, n) for p in pats for n in names):
+                out.append((bi, t))
+    return out
+
+
+def enum_variants(facts, adt_path):
+    adt = facts.adts.get(adt_path)
+    if not adt:
+        return {}
+    out = {}
+    for i, v in enumerate(adt["variants"]):
+        out[int(v["discr"]) if v["discr"] not in (None, "null") else i] = v["name"]
+    return out
+
+
+def const_assigned_in(fn, blocks, local=0):
+    """integer constants assigned to `local` inside the given blocks"""
+    vals = []
+    for bi in sorted(blocks):
+        for s in fn.blocks[bi]["stmts"]:
+            if s["k"] == "assign" and s["place"]["l"] == local and not s["place"]["p"] and s["rv"]["k"] == "use":
+                op = s["rv"]["op"]
+                if op["k"] == "const" and "v" in op:
+                    vals.append(int(op["v"]))
+    return vals
